@@ -99,9 +99,9 @@ Definition cps (s : ddpstring) : option (list Z) :=
 (* the representation invariant: s holds exactly the text cs *)
 Definition repr (s : ddpstring) (cs : list Z) : Prop :=
   forallb tchar cs = true /\
-  ((cs = [] /\ s = empty_string) \/ (bytes s = E cs ++ [0] /\ cap s = len (bytes s))).
+  ((cs = [] /\ s = empty_string) \/ (cs <> [] /\ bytes s = E cs ++ [0] /\ cap s = len (bytes s))).
 (* well-formed: capacity = byte length + 1, valid UTF-8 up to the single terminator at the end,
-   NULL only with capacity 0 *)
+   the empty text is exactly {NULL, 0} *)
 Definition wf (s : ddpstring) : Prop := exists cs, repr s cs.
 
 (* ---- operations on code-point lists -------------------------------------------------------------- *)
